@@ -30,12 +30,17 @@ static octet STACK[1 << 21];
 typedef struct { word v[NW]; size_t n; char nm[64]; } num;
 
 /* ------------------------------------------------------------------ logging */
+static const char* g_op = "";
 static void LB(const char* fam, const char* op, const char* ed)
 {
+	g_op = op;
 	jBegin(); jStr("fam", fam); jStr("op", op); jStr("ed", ed); jInt("W", B_PER_W);
 }
+static int g_hung;
 static void LE_(const char* cls, const char* alias)
 {
+	if (g_hung == 1) jInt("hang", 1); else if (g_hung == 2) jInt("abort", 1); else if (g_hung == 3) jInt("skip", 1);
+	g_hung = 0;
 	jStr("cls", cls); jStr("alias", alias); jEnd();
 }
 #define LW(k, p, nwords) jLimbs16(k, p, (nwords) * O_PER_W)
@@ -179,6 +184,50 @@ static void mkres(num* o, const num* mod, int r)
 	if (wwCmp(o->v, mod->v, n) >= 0) zzMod(o->v, o->v, n, mod->v, n, STACK);
 }
 
+
+/* ------------------------------------------------------------------ guarded calls: a call that does not return within
+   ~0.15 s of CPU time (the longest legitimate call takes microseconds) or that aborts on an assertion is logged with
+   "hang":1 / "abort":1 instead of stopping the driver (the trace module rejects such lines) */
+#include <setjmp.h>
+#include <signal.h>
+#include <sys/time.h>
+static sigjmp_buf HJ;
+static volatile unsigned long g_callno = 0, g_seen = 0;
+static volatile int g_in = 0, g_ticks = 0;
+/* g_hung: 1 hang, 2 abort */
+static void on_tick(int sig)
+{
+	(void)sig;
+	if (g_in && g_callno == g_seen) { if (++g_ticks >= 3) { g_ticks = 0; siglongjmp(HJ, 1); } }
+	else g_seen = g_callno, g_ticks = 0;
+}
+/* after HANG_CAP hangs / aborts of one function on one structural signature (g_sig, set by the caller: the shape of
+   the operand that matters; "" = the function as a whole) the remaining calls with that signature are not made
+   (logged with "skip":1) */
+#define HANG_CAP 3
+static const char* g_sig = "";
+static struct { char key[96]; int cnt; } g_bad[128];
+static int bad_count(const char* op, int add)
+{
+	int i; char key[96];
+	snprintf(key, sizeof(key), "%s|%s", op, g_sig);
+	for (i = 0; i < 128 && g_bad[i].key[0]; ++i) if (strcmp(g_bad[i].key, key) == 0) return g_bad[i].cnt += add;
+	if (add && i < 128) { strcpy(g_bad[i].key, key); g_bad[i].cnt = add; return add; }
+	return 0;
+}
+static void on_abort(int sig) { (void)sig; if (g_in) siglongjmp(HJ, 2); _exit(134); }
+static void guard_init(void)
+{
+	struct itimerval it; struct sigaction sa;
+	memset(&sa, 0, sizeof(sa)); sa.sa_handler = on_tick; sa.sa_flags = SA_NODEFER; sigaction(SIGVTALRM, &sa, 0);
+	memset(&sa, 0, sizeof(sa)); sa.sa_handler = on_abort; sa.sa_flags = SA_NODEFER; sigaction(SIGABRT, &sa, 0);
+	it.it_interval.tv_sec = 0; it.it_interval.tv_usec = 50000; it.it_value = it.it_interval;
+	setitimer(ITIMER_VIRTUAL, &it, 0);
+}
+#define CALL(stmt) do { int j_; ++g_callno; \
+	if (bad_count(g_op, 0) >= HANG_CAP) { g_hung = 3; break; } \
+	j_ = sigsetjmp(HJ, 0); if (j_ == 0) { g_in = 1; stmt; } else { g_hung = j_; bad_count(g_op, 1); } g_in = 0; } while (0)
+
 /* ------------------------------------------------------------------ zz: additive / multiplicative */
 static word A[NW], B_[NW], C[NW], D[NW], E[NW], F[NW];
 
@@ -190,11 +239,11 @@ static void do_cab(const char* op, f_cab f, const num* a, const num* b, int alia
 	LB("zz", op, "def"); jInt("n", n); LW("a", A, n); LW("b", B_, n);
 	switch (alias)
 	{
-	case 1: r = f(A, A, B_, n); wwCopy(C, A, n); an = "c=a"; break;
-	case 2: r = f(B_, A, B_, n); wwCopy(C, B_, n); an = "c=b"; break;
-	case 3: r = f(C, A, A, n); an = "a=b"; break;       /* only called with equal operands */
-	case 4: r = f(A, A, A, n); wwCopy(C, A, n); an = "c=a=b"; break;
-	default: r = f(C, A, B_, n);
+	case 1: CALL(r = f(A, A, B_, n)); wwCopy(C, A, n); an = "c=a"; break;
+	case 2: CALL(r = f(B_, A, B_, n)); wwCopy(C, B_, n); an = "c=b"; break;
+	case 3: CALL(r = f(C, A, A, n)); an = "a=b"; break;       /* only called with equal operands */
+	case 4: CALL(r = f(A, A, A, n)); wwCopy(C, A, n); an = "c=a=b"; break;
+	default: CALL(r = f(C, A, B_, n));
 	}
 	LW("c", C, n); LWord("ret", r);
 	MKCLS("a=%s,b=%s", a->nm, b->nm); LE_(CLS, an);
@@ -205,8 +254,8 @@ static void do_ba(const char* op, f_ba f, const num* a, const num* b, int alias)
 	size_t n = a->n; word r; const char* an = "none";
 	wwCopy(A, a->v, n); wwCopy(B_, b->v, n);
 	LB("zz", op, "def"); jInt("n", n); LW("a", A, n); LW("b", B_, n);
-	if (alias == 3) r = f(A, A, n), wwCopy(B_, A, n), an = "b=a";
-	else r = f(B_, A, n);
+	if (alias == 3) { CALL(r = f(A, A, n)); wwCopy(B_, A, n); an = "b=a"; }
+	else CALL(r = f(B_, A, n));
 	LW("c", B_, n); LWord("ret", r);
 	MKCLS("a=%s,b=%s", a->nm, b->nm); LE_(CLS, an);
 }
@@ -217,8 +266,8 @@ static void do_baw(const char* op, f_baw f, const num* a, const num* b, word w, 
 	size_t n = a->n; word r; const char* an = "none";
 	wwCopy(A, a->v, n); if (inout) wwCopy(B_, b->v, n); else set_fill(B_, n, 0x5A);
 	LB("zz", op, "def"); jInt("n", n); LW("a", A, n); if (inout) LW("b", B_, n); LWord("w", w);
-	if (alias) r = f(A, A, n, w), wwCopy(B_, A, n), an = "b=a";
-	else r = f(B_, A, n, w);
+	if (alias) { CALL(r = f(A, A, n, w)); wwCopy(B_, A, n); an = "b=a"; }
+	else CALL(r = f(B_, A, n, w));
 	LW("c", B_, n); LWord("ret", r);
 	if (inout) MKCLS("a=%s,b=%s,w=%s", a->nm, b->nm, wn); else MKCLS("a=%s,w=%s", a->nm, wn);
 	LE_(CLS, an);
@@ -229,7 +278,7 @@ static void do_aw2(const char* op, f_aw f, const num* a, word w, const char* wn)
 	size_t n = a->n; word r;
 	wwCopy(A, a->v, n);
 	LB("zz", op, "def"); jInt("n", n); LW("a", A, n); LWord("w", w);
-	r = f(A, n, w);
+	CALL(r = f(A, n, w));
 	LW("c", A, n); LWord("ret", r);
 	MKCLS("a=%s,w=%s", a->nm, wn); LE_(CLS, "none");
 }
@@ -239,7 +288,7 @@ static void do_modw(const char* op, f_caw f, const num* a, word w, const char* w
 	size_t n = a->n; word r;
 	wwCopy(A, a->v, n);
 	LB("zz", op, "def"); jInt("n", n); LW("a", A, n); LWord("w", w);
-	r = f(A, n, w);
+	CALL(r = f(A, n, w));
 	LWord("ret", r);
 	MKCLS("a=%s,w=%s", a->nm, wn); LE_(CLS, "none");
 }
@@ -248,7 +297,7 @@ static void do_sumeq(const char* ed, f_sumeq f, const num* c, const num* a, cons
 {
 	size_t n = a->n; bool_t r;
 	LB("zz", "zzIsSumEq", ed); jInt("n", n); LW("c", c->v, n); LW("a", a->v, n); LW("b", b->v, n);
-	r = f(c->v, a->v, b->v, n);
+	CALL(r = f(c->v, a->v, b->v, n));
 	jInt("ret", r);
 	MKCLS("a=%s,b=%s,c=%s", a->nm, b->nm, cn); LE_(CLS, "none");
 }
@@ -257,7 +306,7 @@ static void do_sumweq(const char* ed, f_sumweq f, const num* b, const num* a, wo
 {
 	size_t n = a->n; bool_t r;
 	LB("zz", "zzIsSumWEq", ed); jInt("n", n); LW("b", b->v, n); LW("a", a->v, n); LWord("w", w);
-	r = f(b->v, a->v, n, w);
+	CALL(r = f(b->v, a->v, n, w));
 	jInt("ret", r);
 	MKCLS("a=%s,w=%s,b=%s", a->nm, wn, bn); LE_(CLS, "none");
 }
@@ -275,8 +324,8 @@ static void fam_zz_add(void)
 			LB("zz", "zzIsEven", "def"); jInt("n", n); LW("a", a.v, n); jInt("ret", zzIsEven(a.v, n)); MKCLS("a=%s", a.nm); LE_(CLS, "none");
 			LB("zz", "zzIsOdd", "def"); jInt("n", n); LW("a", a.v, n); jInt("ret", zzIsOdd(a.v, n)); MKCLS("a=%s", a.nm); LE_(CLS, "none");
 			wwCopy(A, a.v, n); set_fill(C, n, 0x5A);
-			LB("zz", "zzNeg", "def"); jInt("n", n); LW("a", A, n); zzNeg(C, A, n); LW("c", C, n); MKCLS("a=%s", a.nm); LE_(CLS, "none");
-			LB("zz", "zzNeg", "def"); jInt("n", n); LW("a", A, n); zzNeg(A, A, n); LW("c", A, n); MKCLS("a=%s", a.nm); LE_(CLS, "b=a");
+			LB("zz", "zzNeg", "def"); jInt("n", n); LW("a", A, n); CALL(zzNeg(C, A, n)); LW("c", C, n); MKCLS("a=%s", a.nm); LE_(CLS, "none");
+			LB("zz", "zzNeg", "def"); jInt("n", n); LW("a", A, n); CALL(zzNeg(A, A, n)); LW("c", A, n); MKCLS("a=%s", a.nm); LE_(CLS, "b=a");
 			/* with a word from the alphabet */
 			for (k = 0; k < 9; ++k)
 			{
@@ -294,7 +343,7 @@ static void fam_zz_add(void)
 				/* a + w == b ?  with b = a + w (exact), a + w + 1, and the wrapped sum when there is a carry */
 				{
 					word cy;
-					b = a; cy = zzAddW2(b.v, n, w);
+					b = a; CALL(cy = zzAddW2(b.v, n, w));
 					do_sumweq("safe", SAFE(zzIsSumWEq), &b, &a, w, AN[k], cy ? "sum-wrapped" : "sum");
 					do_sumweq("fast", FAST(zzIsSumWEq), &b, &a, w, AN[k], cy ? "sum-wrapped" : "sum");
 					if (n) { b.v[(i + k) % n] ^= WORD_1 << ((i * 7 + k) % B_PER_W);
@@ -329,7 +378,7 @@ static void fam_zz_add(void)
 				/* sum == c ? */
 				{
 					word cy;
-					c.n = n; cy = zzAdd(c.v, a.v, b.v, n);
+					c.n = n; CALL(cy = zzAdd(c.v, a.v, b.v, n));
 					do_sumeq("safe", SAFE(zzIsSumEq), &c, &a, &b, cy ? "sum-wrapped" : "sum");
 					do_sumeq("fast", FAST(zzIsSumEq), &c, &a, &b, cy ? "sum-wrapped" : "sum");
 					if (n) { c.v[(i + j) % n] ^= WORD_1 << ((i * 5 + j) % B_PER_W);
@@ -364,7 +413,7 @@ static void fam_zz_add(void)
 				mkshape(&a, n, (int)i); mkshape(&b, m, (int)j);
 				set_fill(C, mx, 0x5A);
 				LB("zz", "zzAdd3", "def"); jInt("n", n); jInt("m", m); LW("a", a.v, n); LW("b", b.v, m);
-				r = zzAdd3(C, a.v, n, b.v, m);
+				CALL(r = zzAdd3(C, a.v, n, b.v, m));
 				LW("c", C, mx); LWord("ret", r);
 				MKCLS("a=%s,b=%s", a.nm, b.nm); LE_(CLS, "none");
 			}
@@ -378,7 +427,7 @@ static void log_mul(const num* a, const num* b)
 	size_t n = a->n, m = b->n;
 	set_fill(C, n + m, 0x5A);
 	LB("zz", "zzMul", "def"); jInt("n", n); jInt("m", m); LW("a", a->v, n); LW("b", b->v, m);
-	zzMul(C, a->v, n, b->v, m, STACK);
+	CALL(zzMul(C, a->v, n, b->v, m, STACK));
 	LW("c", C, n + m); MKCLS("a=%s,b=%s", a->nm, b->nm); LE_(CLS, "none");
 }
 static void log_div(const num* a, const num* b, const char* cls)
@@ -387,12 +436,12 @@ static void log_div(const num* a, const num* b, const char* cls)
 	/* q and r disjoint, r disjoint from a */
 	set_fill(C, n - m + 1, 0x5A); set_fill(D, m, 0x5A);
 	LB("zz", "zzDiv", "def"); jInt("n", n); jInt("m", m); LW("a", a->v, n); LW("b", b->v, m);
-	zzDiv(C, D, a->v, n, b->v, m, STACK);
+	CALL(zzDiv(C, D, a->v, n, b->v, m, STACK));
 	LW("q", C, n - m + 1); LW("r", D, m); LE_(cls, "none");
 	/* r == a */
 	wwCopy(A, a->v, n); set_fill(C, n - m + 1, 0x5A);
 	LB("zz", "zzDiv", "def"); jInt("n", n); jInt("m", m); LW("a", A, n); LW("b", b->v, m);
-	zzDiv(C, A, A, n, b->v, m, STACK);
+	CALL(zzDiv(C, A, A, n, b->v, m, STACK));
 	LW("q", C, n - m + 1); LW("r", A, m); LE_(cls, "r=a");
 }
 static void log_mod(const num* a, const num* b, const char* cls)
@@ -400,13 +449,13 @@ static void log_mod(const num* a, const num* b, const char* cls)
 	size_t n = a->n, m = b->n;
 	set_fill(D, m, 0x5A);
 	LB("zz", "zzMod", "def"); jInt("n", n); jInt("m", m); LW("a", a->v, n); LW("b", b->v, m);
-	zzMod(D, a->v, n, b->v, m, STACK);
+	CALL(zzMod(D, a->v, n, b->v, m, STACK));
 	LW("r", D, m); LE_(cls, "none");
 	if (n >= m)
 	{
 		wwCopy(A, a->v, n);
 		LB("zz", "zzMod", "def"); jInt("n", n); jInt("m", m); LW("a", A, n); LW("b", b->v, m);
-		zzMod(A, A, n, b->v, m, STACK);
+		CALL(zzMod(A, A, n, b->v, m, STACK));
 		LW("r", A, m); LE_(cls, "r=a");
 	}
 }
@@ -458,10 +507,10 @@ static void fam_zz_mul(void)
 			bool_t r; size_t k = (n + 1) / 2;
 			mkshape(&a, n, (int)i);
 			set_fill(C, 2 * n, 0x5A);
-			LB("zz", "zzSqr", "def"); jInt("n", n); LW("a", a.v, n); zzSqr(C, a.v, n, STACK); LW("c", C, 2 * n);
+			LB("zz", "zzSqr", "def"); jInt("n", n); LW("a", a.v, n); CALL(zzSqr(C, a.v, n, STACK)); LW("c", C, 2 * n);
 			MKCLS("a=%s", a.nm); LE_(CLS, "none");
 			set_fill(D, k, 0x5A);
-			LB("zz", "zzSqrt", "def"); jInt("n", n); LW("a", a.v, n); r = zzSqrt(D, a.v, n, STACK); LW("c", D, k); jInt("ret", r);
+			LB("zz", "zzSqrt", "def"); jInt("n", n); LW("a", a.v, n); CALL(r = zzSqrt(D, a.v, n, STACK)); LW("c", D, k); jInt("ret", r);
 			MKCLS("a=%s", a.nm); LE_(CLS, "none");
 			/* perfect squares s^2 and their neighbours s^2 - 1, s^2 + 1 (s = the k low words of a) */
 			if (n >= 1 && n % 2 == 0)
@@ -469,10 +518,10 @@ static void fam_zz_mul(void)
 				int dlt;
 				for (dlt = -1; dlt <= 1; ++dlt)
 				{
-					zzSqr(E, a.v, k, STACK);
+					CALL(zzSqr(E, a.v, k, STACK));
 					if (dlt < 0 && !wwIsZero(E, n)) zzSubW2(E, n, 1); else if (dlt > 0 && !wwIsRepW(E, n, BMAX)) zzAddW2(E, n, 1);
 					set_fill(D, k, 0x5A);
-					LB("zz", "zzSqrt", "def"); jInt("n", n); LW("a", E, n); r = zzSqrt(D, E, n, STACK); LW("c", D, k); jInt("ret", r);
+					LB("zz", "zzSqrt", "def"); jInt("n", n); LW("a", E, n); CALL(r = zzSqrt(D, E, n, STACK)); LW("c", D, k); jInt("ret", r);
 					MKCLS("a=sqr(%s)%+d", a.nm, dlt); LE_(CLS, "none");
 				}
 			}
@@ -509,9 +558,9 @@ static void fam_zz_div(void)
 					{
 						word prod[2 * NW];
 						memset(r.v, 0, sizeof(r.v));
-						if (rk == 1) r.v[0] = 1; else if (rk == 2) wwCopy(r.v, b.v, m), zzSubW2(r.v, m, 1);
+						if (rk == 1) r.v[0] = 1; else if (rk == 2) { wwCopy(r.v, b.v, m); zzSubW2(r.v, m, 1); }
 						if (rk == 1 && m == 1 && b.v[0] == 1) continue;     /* r < b */
-						zzMul(prod, q.v, nq, b.v, m, STACK);                  /* nq + m = n + 1 words */
+						CALL(zzMul(prod, q.v, nq, b.v, m, STACK));                  /* nq + m = n + 1 words */
 						if (zzAdd3(prod, prod, n + 1, r.v, m) || prod[n] != 0) continue;   /* does not fit n words */
 						wwCopy(a.v, prod, n); a.n = n;
 						MKCLS("a=q*b+r,q=%s,r=%s,b=%s", q.nm, rk == 0 ? "0" : rk == 1 ? "1" : "b-1", b.nm);
@@ -574,22 +623,22 @@ static void fam_zz_gcd(void)
 				}
 				MKCLS("a=%s,b=%s%s", a.nm, b.nm, var ? ",common-factor" : ""); strcpy(c2, CLS);
 				{ bool_t r; LB("zz", "zzIsCoprime", "def"); jInt("n", n); jInt("m", m); LW("a", a.v, n); LW("b", b.v, m);
-				  r = zzIsCoprime(a.v, n, b.v, m, STACK); jInt("ret", r); LE_(c2, "none"); }
+				  CALL(r = zzIsCoprime(a.v, n, b.v, m, STACK)); jInt("ret", r); LE_(c2, "none"); }
 				if (wwIsZero(a.v, n) || wwIsZero(b.v, m)) continue;         /* pre: a != 0 && b != 0 */
 				set_fill(C, mn, 0x5A);
 				LB("zz", "zzGCD", "def"); jInt("n", n); jInt("m", m); LW("a", a.v, n); LW("b", b.v, m);
-				zzGCD(C, a.v, n, b.v, m, STACK); LW("c", C, mn); LE_(c2, "none");
+				CALL(zzGCD(C, a.v, n, b.v, m, STACK)); LW("c", C, mn); LE_(c2, "none");
 				set_fill(C, n + m, 0x5A);
 				LB("zz", "zzLCM", "def"); jInt("n", n); jInt("m", m); LW("a", a.v, n); LW("b", b.v, m);
-				zzLCM(C, a.v, n, b.v, m, STACK); LW("c", C, n + m); LE_(c2, "none");
+				CALL(zzLCM(C, a.v, n, b.v, m, STACK)); LW("c", C, n + m); LE_(c2, "none");
 				set_fill(C, mn, 0x5A); set_fill(D, m, 0x5A); set_fill(E, n, 0x5A);
 				LB("zz", "zzExGCD", "def"); jInt("n", n); jInt("m", m); LW("a", a.v, n); LW("b", b.v, m);
-				zzExGCD(C, D, E, a.v, n, b.v, m, STACK); LW("d", C, mn); LW("da", D, m); LW("db", E, n); LE_(c2, "none");
+				CALL(zzExGCD(C, D, E, a.v, n, b.v, m, STACK)); LW("d", C, mn); LW("da", D, m); LW("db", E, n); LE_(c2, "none");
 				if (b.v[0] & 1)
 				{
 					int r;
 					LB("zz", "zzJacobi", "def"); jInt("n", n); jInt("m", m); LW("a", a.v, n); LW("b", b.v, m);
-					r = zzJacobi(a.v, n, b.v, m, STACK); jInt("ret", r); LE_(c2, "none");
+					CALL(r = zzJacobi(a.v, n, b.v, m, STACK)); jInt("ret", r); LE_(c2, "none");
 				}
 			}
 		}
@@ -605,11 +654,11 @@ static void do_cabm(const char* op, const char* ed, f_cabm f, const num* a, cons
 	LB("zz", op, ed); jInt("n", n); LW("a", A, n); LW("b", B_, n); LW("mod", mod->v, n);
 	switch (alias)
 	{
-	case 1: f(A, A, B_, mod->v, n); wwCopy(C, A, n); an = "c=a"; break;
-	case 2: f(B_, A, B_, mod->v, n); wwCopy(C, B_, n); an = "c=b"; break;
-	case 3: f(C, A, A, mod->v, n); an = "a=b"; break;
-	case 4: f(A, A, A, mod->v, n); wwCopy(C, A, n); an = "c=a=b"; break;
-	default: f(C, A, B_, mod->v, n);
+	case 1: CALL(f(A, A, B_, mod->v, n)); wwCopy(C, A, n); an = "c=a"; break;
+	case 2: CALL(f(B_, A, B_, mod->v, n)); wwCopy(C, B_, n); an = "c=b"; break;
+	case 3: CALL(f(C, A, A, mod->v, n)); an = "a=b"; break;
+	case 4: CALL(f(A, A, A, mod->v, n)); wwCopy(C, A, n); an = "c=a=b"; break;
+	default: CALL(f(C, A, B_, mod->v, n));
 	}
 	LW("c", C, n); MKCLS("mod=%s,a=%s,b=%s", mod->nm, a->nm, b->nm); LE_(CLS, an);
 }
@@ -619,7 +668,7 @@ static void do_bawm(const char* op, const char* ed, f_bawm f, const num* a, word
 	size_t n = mod->n;
 	wwCopy(A, a->v, n); set_fill(C, n, 0x5A);
 	LB("zz", op, ed); jInt("n", n); LW("a", A, n); LWord("w", w); LW("mod", mod->v, n);
-	if (alias) f(A, A, w, mod->v, n), wwCopy(C, A, n); else f(C, A, w, mod->v, n);
+	if (alias) { CALL(f(A, A, w, mod->v, n)); wwCopy(C, A, n); } else CALL(f(C, A, w, mod->v, n));
 	LW("c", C, n); MKCLS("mod=%s,a=%s,w=%s", mod->nm, a->nm, wn); LE_(CLS, alias ? "b=a" : "none");
 }
 typedef void (*f_bam)(word*, const word*, const word*, size_t);
@@ -628,7 +677,7 @@ static void do_bam(const char* op, const char* ed, f_bam f, const num* a, const 
 	size_t n = mod->n;
 	wwCopy(A, a->v, n); set_fill(C, n, 0x5A);
 	LB("zz", op, ed); jInt("n", n); LW("a", A, n); LW("mod", mod->v, n);
-	if (alias) f(A, A, mod->v, n), wwCopy(C, A, n); else f(C, A, mod->v, n);
+	if (alias) { CALL(f(A, A, mod->v, n)); wwCopy(C, A, n); } else CALL(f(C, A, mod->v, n));
 	LW("c", C, n); MKCLS("mod=%s,a=%s", mod->nm, a->nm); LE_(CLS, alias ? "b=a" : "none");
 }
 static void fam_zz_mod(void)
@@ -660,23 +709,23 @@ static void fam_zz_mod(void)
 					do_bawm("zzSubWMod", "safe", SAFE(zzSubWMod), &a, w, AN[j], &mod, j % 2); do_bawm("zzSubWMod", "fast", FAST(zzSubWMod), &a, w, AN[j], &mod, j % 2);
 					wwCopy(A, a.v, n); set_fill(C, n, 0x5A);
 					LB("zz", "zzMulWMod", "def"); jInt("n", n); LW("a", A, n); LWord("w", w); LW("mod", mod.v, n);
-					zzMulWMod(C, A, w, mod.v, n, STACK); LW("c", C, n); MKCLS("mod=%s,a=%s,w=%s", mod.nm, a.nm, AN[j]); LE_(CLS, "none");
+					CALL(zzMulWMod(C, A, w, mod.v, n, STACK)); LW("c", C, n); MKCLS("mod=%s,a=%s,w=%s", mod.nm, a.nm, AN[j]); LE_(CLS, "none");
 				}
 				/* unary with stack */
 				wwCopy(A, a.v, n); set_fill(C, n, 0x5A);
 				LB("zz", "zzSqrMod", "def"); jInt("n", n); LW("a", A, n); LW("mod", mod.v, n);
-				zzSqrMod(C, A, mod.v, n, STACK); LW("c", C, n); MKCLS("mod=%s,a=%s", mod.nm, a.nm); LE_(CLS, "none");
+				CALL(zzSqrMod(C, A, mod.v, n, STACK)); LW("c", C, n); MKCLS("mod=%s,a=%s", mod.nm, a.nm); LE_(CLS, "none");
 				if (mod_is_odd(&mod))
 				{
 					set_fill(C, n, 0x5A);
 					LB("zz", "zzInvMod", "def"); jInt("n", n); LW("a", A, n); LW("mod", mod.v, n);
-					zzInvMod(C, A, mod.v, n, STACK); LW("c", C, n); MKCLS("mod=%s,a=%s", mod.nm, a.nm); LE_(CLS, "none");
+					g_sig = a.nm; CALL(zzInvMod(C, A, mod.v, n, STACK)); g_sig = ""; LW("c", C, n); MKCLS("mod=%s,a=%s", mod.nm, a.nm); LE_(CLS, "none");
 					if (!wwIsZero(A, n))
 					{
 						size_t k;
 						set_fill(C, n, 0x5A);
 						LB("zz", "zzAlmostInvMod", "def"); jInt("n", n); LW("a", A, n); LW("mod", mod.v, n);
-						k = zzAlmostInvMod(C, A, mod.v, n, STACK); LW("c", C, n); jInt("ret", (long long)k);
+						CALL(k = zzAlmostInvMod(C, A, mod.v, n, STACK)); LW("c", C, n); jInt("ret", (long long)k);
 						MKCLS("mod=%s,a=%s", mod.nm, a.nm); LE_(CLS, "none");
 					}
 				}
@@ -699,12 +748,12 @@ static void fam_zz_mod(void)
 					}
 					wwCopy(A, a.v, n); wwCopy(B_, b.v, n); set_fill(C, n, 0x5A);
 					LB("zz", "zzMulMod", "def"); jInt("n", n); LW("a", A, n); LW("b", B_, n); LW("mod", mod.v, n);
-					zzMulMod(C, A, B_, mod.v, n, STACK); LW("c", C, n); MKCLS("mod=%s,a=%s,b=%s", mod.nm, a.nm, b.nm); LE_(CLS, "none");
+					CALL(zzMulMod(C, A, B_, mod.v, n, STACK)); LW("c", C, n); MKCLS("mod=%s,a=%s,b=%s", mod.nm, a.nm, b.nm); LE_(CLS, "none");
 					if (mod_is_odd(&mod))
 					{
 						set_fill(C, n, 0x5A);
 						LB("zz", "zzDivMod", "def"); jInt("n", n); LW("dv", A, n); LW("a", B_, n); LW("mod", mod.v, n);
-						zzDivMod(C, A, B_, mod.v, n, STACK); LW("c", C, n); MKCLS("mod=%s,dv=%s,a=%s", mod.nm, a.nm, b.nm); LE_(CLS, "none");
+						g_sig = b.nm; CALL(zzDivMod(C, A, B_, mod.v, n, STACK)); g_sig = ""; LW("c", C, n); MKCLS("mod=%s,dv=%s,a=%s", mod.nm, a.nm, b.nm); LE_(CLS, "none");
 					}
 				}
 			}
@@ -735,19 +784,19 @@ static void fam_zz_pow(void)
 					if (!THOROUGH && m > 1 && (i + j) % 2) continue;
 					set_fill(C, n, 0x5A);
 					LB("zz", "zzPowerMod", "def"); jInt("n", n); jInt("m", m); LW("a", a.v, n); LW("b", e.v, m); LW("mod", mod.v, n);
-					zzPowerMod(C, a.v, n, e.v, m, mod.v, STACK); LW("c", C, n);
+					CALL(zzPowerMod(C, a.v, n, e.v, m, mod.v, STACK)); LW("c", C, n);
 					MKCLS("mod=%s,a=%s,e=%s", mod.nm, a.nm, e.nm); LE_(CLS, "none");
 				}
 			}
 		}
 	}
 	/* word-sized: a^b mod m over the alphabet */
-	for (i = 0; i < 9; ++i) for (j = 0; j < 9; ++j) for (k = 1; k < 9; ++k)
+	for (i = 0; i < 9; ++i) for (j = 0; j < 9; ++j) for (k = 2; k < 9; ++k)
 	{
 		word aw = alpha((int)i), bw = alpha((int)j), mw = alpha((int)k), r;
 		if (!THOROUGH && (i + j + k) % 3) continue;
-		if (mw == 0) continue;
-		r = zzPowerModW(aw, bw, mw, STACK);
+		if (mw < 2) continue;            /* moduli > 1 */
+		CALL(r = zzPowerModW(aw, bw, mw, STACK));
 		LB("zz", "zzPowerModW", "def"); LWord("a", aw); LWord("b", bw); LWord("mod", mw); LWord("ret", r);
 		MKCLS("a=%s,b=%s,mod=%s", AN[i], AN[j], AN[k]); LE_(CLS, "none");
 	}
@@ -763,11 +812,11 @@ static void call_red(int rd, int ed, word* a, const num* mod, word mont)
 	size_t n = mod->n;
 	switch (rd)
 	{
-	case RD_RED: zzRed(a, mod->v, n, STACK); break;
-	case RD_CRAND: if (ed == 1) SAFE(zzRedCrand)(a, mod->v, n, STACK); else FAST(zzRedCrand)(a, mod->v, n, STACK); break;
-	case RD_BARR: if (ed == 1) SAFE(zzRedBarr)(a, mod->v, n, BARR, STACK); else FAST(zzRedBarr)(a, mod->v, n, BARR, STACK); break;
-	case RD_MONT: if (ed == 1) SAFE(zzRedMont)(a, mod->v, n, mont, STACK); else FAST(zzRedMont)(a, mod->v, n, mont, STACK); break;
-	case RD_CRANDMONT: if (ed == 1) SAFE(zzRedCrandMont)(a, mod->v, n, mont, STACK); else FAST(zzRedCrandMont)(a, mod->v, n, mont, STACK); break;
+	case RD_RED: CALL(zzRed(a, mod->v, n, STACK)); break;
+	case RD_CRAND: if (ed == 1) CALL(SAFE(zzRedCrand)(a, mod->v, n, STACK)); else CALL(FAST(zzRedCrand)(a, mod->v, n, STACK)); break;
+	case RD_BARR: if (ed == 1) CALL(SAFE(zzRedBarr)(a, mod->v, n, BARR, STACK)); else CALL(FAST(zzRedBarr)(a, mod->v, n, BARR, STACK)); break;
+	case RD_MONT: if (ed == 1) CALL(SAFE(zzRedMont)(a, mod->v, n, mont, STACK)); else CALL(FAST(zzRedMont)(a, mod->v, n, mont, STACK)); break;
+	case RD_CRANDMONT: if (ed == 1) CALL(SAFE(zzRedCrandMont)(a, mod->v, n, mont, STACK)); else CALL(FAST(zzRedCrandMont)(a, mod->v, n, mont, STACK)); break;
 	}
 }
 static void log_red(int rd, const word* a2n, const num* mod, word mont, const char* cls)
@@ -806,7 +855,7 @@ static void fam_zz_red(void)
 			/* Barrett parameter (and its own value) */
 			set_fill(BARR, n + 2, 0x5A);
 			LB("zz", "zzRedBarrStart", "def"); jInt("n", n); LW("mod", mod.v, n);
-			zzRedBarrStart(BARR, mod.v, n, STACK); LW("c", BARR, n + 2); MKCLS("mod=%s", mod.nm); LE_(CLS, "none");
+			CALL(zzRedBarrStart(BARR, mod.v, n, STACK)); LW("c", BARR, n + 2); MKCLS("mod=%s", mod.nm); LE_(CLS, "none");
 			for (rd = 0; rd < NRD; ++rd)
 			{
 				int mont_like = rd == RD_MONT || rd == RD_CRANDMONT;
@@ -823,7 +872,7 @@ static void fam_zz_red(void)
 				/* a = mod*R - 1: the largest admissible input of the Montgomery reductions */
 				if (mont_like)
 				{
-					memset(a2, 0, sizeof(a2)); wwCopy(a2 + n, mod.v, n); zzSubW2(a2, 2 * n, 1);
+					memset(a2, 0, sizeof(a2)); wwCopy(a2 + n, mod.v, n); CALL(zzSubW2(a2, 2 * n, 1));
 					MKCLS("mod=%s,a=mod*R-1", mod.nm); strcpy(c2, CLS); log_red(rd, a2, &mod, mont, c2);
 				}
 				/* multiples of the modulus: a = k*mod + r, k drawn word by word from the alphabet, r in {0, 1, mod-1} */
@@ -835,9 +884,9 @@ static void fam_zz_red(void)
 						for (rk = 0; rk < 3; ++rk)
 						{
 							if (rk && kgrid && n > 1 && !THOROUGH && g % 7) continue;
-							zzMul(a2, k.v, n, mod.v, n, STACK);
+							CALL(zzMul(a2, k.v, n, mod.v, n, STACK));
 							if (rk == 1) { if (zzAddW2(a2, 2 * n, 1)) continue; }
-							else if (rk == 2) { word tm[NW]; wwCopy(tm, mod.v, n); zzSubW2(tm, n, 1); if (zzAdd3(a2, a2, 2 * n, tm, n)) continue; }
+							else if (rk == 2) { word tm[NW]; wwCopy(tm, mod.v, n); CALL(zzSubW2(tm, n, 1)); if (zzAdd3(a2, a2, 2 * n, tm, n)) continue; }
 							MKCLS("mod=%s,a=k*mod%s,%s,k=%s", mod.nm, rk == 0 ? "" : rk == 1 ? "+1" : "+mod-1", ktopclass(&k), k.nm); strcpy(c2, CLS);
 							log_red(rd, a2, &mod, mont, c2);
 						}
@@ -866,6 +915,7 @@ int main(int argc, char** argv)
 	if (argc < 3 || strcmp(argv[1], "record")) { fprintf(stderr, "usage: drv_arith record quick|thorough [zz red mod ww pp word qr]\n"); return 2; }
 	THOROUGH = strcmp(argv[2], "thorough") == 0;
 	vxSeed(vxEnvSeed());
+	guard_init();
 	/* VX_UNBUF=1: flush every line (to locate a crash) */
 	if (getenv("VX_UNBUF")) setvbuf(stdout, 0, _IOLBF, 0);
 	else { static char obuf[1 << 20]; setvbuf(stdout, obuf, _IOFBF, sizeof(obuf)); }
